@@ -188,7 +188,8 @@ func (d *disconnectHandler) handleDisconnect() {
 // handleGracePeriodExpired is called when grace period expires
 func (d *disconnectHandler) handleGracePeriodExpired() {
 	d.mu.Lock()
-	defer d.mu.Unlock()
+	disconnectedAt := d.disconnectedAt
+	d.mu.Unlock()
 
 	if d.election.connectionMonitor != nil {
 		status := d.election.connectionMonitor.Status()
@@ -205,7 +206,7 @@ func (d *disconnectHandler) handleGracePeriodExpired() {
 	// Still disconnected, demote if still leader
 	if d.election.isLeader.Load() {
 		log := d.election.getLogger()
-		disconnectedDuration := time.Since(d.disconnectedAt)
+		disconnectedDuration := time.Since(disconnectedAt)
 		log.Error("demoting_due_to_connection_loss",
 			append(d.election.logWithContext(d.election.ctx),
 				zap.Duration("disconnected_duration", disconnectedDuration),
@@ -228,6 +229,10 @@ func (d *disconnectHandler) stop() {
 }
 
 func (e *kvElection) handleReconnect() {
+	// Cancel a pending grace timer under the handler's own mutex, before taking e.mu
+	// (lock order: handler mutex, then e.mu).
+	e.disconnectHandler.stop()
+
 	e.mu.Lock()
 	defer e.mu.Unlock()
 
@@ -238,11 +243,6 @@ func (e *kvElection) handleReconnect() {
 
 	if e.cfg.Metrics != nil {
 		e.cfg.Metrics.SetConnectionStatus(1, e.getMetricsLabels())
-	}
-
-	if e.disconnectHandler.timer != nil {
-		e.disconnectHandler.timer.Stop()
-		e.disconnectHandler.timer = nil
 	}
 
 	if !e.isLeader.Load() {
